@@ -175,6 +175,16 @@ func hasClass(o *Outcome, class string) *Violation {
 	return nil
 }
 
+// OutDir is where evidence/ and replays/ are written: /verif, unless VERIF_OUT_DIR redirects
+// them (used for sensitivity experiments on deliberately broken trees, whose output must not
+// replace the evidence of the real tree).
+func OutDir(env *Env) string {
+	if d := os.Getenv("VERIF_OUT_DIR"); d != "" {
+		return d
+	}
+	return env.VerifDir
+}
+
 // Check explores one property at one tier and writes its evidence file.
 func Check(env *Env, prop Property, tier string, verifSeed uint64, workers int) (*CheckResult, error) {
 	start := time.Now()
@@ -356,9 +366,9 @@ func Check(env *Env, prop Property, tier string, verifSeed uint64, workers int) 
 			}
 			rf := ReplayFile{Property: prop.ID(), Tier: tier, VerifSeed: verifSeed, Index: f.index, Seed: f.seed,
 				Violations: bestOut.Violations, ShrinkLog: shrinkLog, Tape: bestTape, Scenario: bestData}
-			os.MkdirAll(filepath.Join(env.VerifDir, "replays"), 0755)
+			os.MkdirAll(filepath.Join(OutDir(env), "replays"), 0755)
 			name := fmt.Sprintf("%s-%d-%d-%s.json", prop.ID(), verifSeed, f.index, hashOf(class)[:6])
-			path := filepath.Join(env.VerifDir, "replays", name)
+			path := filepath.Join(OutDir(env), "replays", name)
 			b, _ := json.MarshalIndent(rf, "", " ")
 			if err := os.WriteFile(path, b, 0644); err != nil {
 				return nil, Harness("write replay: %v", err)
@@ -420,9 +430,9 @@ func Check(env *Env, prop Property, tier string, verifSeed uint64, workers int) 
 			"exhaustive":           false,
 		},
 	}
-	os.MkdirAll(filepath.Join(env.VerifDir, "evidence"), 0755)
+	os.MkdirAll(filepath.Join(OutDir(env), "evidence"), 0755)
 	b, _ := json.MarshalIndent(ev, "", " ")
-	if err := os.WriteFile(filepath.Join(env.VerifDir, "evidence", prop.ID()+".json"), b, 0644); err != nil {
+	if err := os.WriteFile(filepath.Join(OutDir(env), "evidence", prop.ID()+".json"), b, 0644); err != nil {
 		return nil, Harness("write evidence: %v", err)
 	}
 	fmt.Printf("%s %s: %d scenarios (%d non-trivial distinct, %d skipped), %d processes, %d ops, %d map-iteration events (%d permuted), %.0fs\n",
